@@ -26,8 +26,14 @@ def unit_cid_read():
         self = Ref("Cid")
         st.heap[self.oid] = {"_cid_path": None, "_data_format": Sym(Opt(DFO), sort_of(Opt(DFO)).none), "_field_names": fresh(UFList(STR), "names0")[0], "_location": None}
         st.pc.append(st.heap[self.oid]["_field_names"].length == 0)
-        st.frames[-1].env.update({"self": self, "cid_path": "<cid>", "rows": rows})
-        st.ghost.update({"rows": rows, "this": self, "d_rows": 0, "f_rows": 0, "c_rows": 0})
+        # the rows come from a row reader: a CID file that cannot be parsed makes it raise a DataFormatError instead of delivering row number fail_at + 1
+        def raise_fault(ex_, s):
+            m = fresh(STR, "msg")[0]; s.pc.append(z3.Length(m.z) > 0)
+            floc = Ref("Location"); s.heap[floc.oid] = {"file_path": "<cid>", "_line": fresh(INT, "fline")[0], "_column": 0, "_cell": 0, "_sheet": 0, "_has_column": False, "_has_cell": False, "_has_sheet": False}
+            for s2, e in raise_new(ex_, s, "DataFormatError", [m, floc]):
+                s2.ghost["container_fault"] = True; s2.ghost["fault_loc"] = floc; yield s2, e
+        st.frames[-1].env.update({"self": self, "cid_path": "<cid>", "rows": FallibleIter(rows, fresh(INT, "fail_at")[0], raise_fault)})
+        st.ghost.update({"rows": rows, "all_rows": rows, "this": self, "d_rows": 0, "f_rows": 0, "c_rows": 0, "container_fault": False, "fault_loc": None})
     def row_type(ex, st):
         i = lift(st.frames[-1].env["_i0"]).z; r = st.ghost["rows"].at(i)
         return strip_of(ex, lower_of(ex, r[0])), r
@@ -67,11 +73,12 @@ def unit_cid_read():
                 returns=[Clause(lambda ex, st: Sym(BOOL, z3.And(z3.Not(sort_of(Opt(DFO)).is_none(lift(st.heap[st.ghost["this"].oid]["_data_format"]).z)), st.heap[st.ghost["this"].oid]["_field_names"].length > 0)),
                                 "accepted-only-with-a-data-format-and-at-least-one-field", props=["C09"]),
                          Clause("d_rows >= 1 and f_rows >= 1", "accepted-only-after-a-D-row-and-an-F-row", props=["C09"]),
-                         Clause("known_upto(len(rows))", "accepted-only-if-every-row-marker-is-empty-or-D-F-C", props=["C09"])],
-                raises={"InterfaceError": [Clause(lambda ex, st: Sym(BOOL, z3.Or(z3.BoolVal(False),        # (no exemption for the contradictions DataFormat.validate() finds: they are reported at the end of the CID)
+                         Clause("known_upto(len(all_rows))", "accepted-only-if-every-row-marker-is-empty-or-D-F-C", props=["C09"])],
+                raises={"InterfaceError": [Clause(lambda ex, st: Sym(BOOL, z3.Or((z3.And(z3.BoolVal(bool(st.ghost.get("container_fault"))), lift(st.heap[st.heap[st.ghost["__exc__"].oid]["_location"].oid]["_line"]).z == lift(st.heap[st.ghost["fault_loc"].oid]["_line"]).z)
+                                                   if st.ghost.get("container_fault") and st.heap[st.ghost["__exc__"].oid].get("_location") is not None else z3.BoolVal(False)),        # a file that cannot be parsed: the reader's own location (no exemption for the contradictions DataFormat.validate() finds)
                                                   z3.And(z3.BoolVal(st.ghost["__exc__"] is not None), lift(st.heap[st.heap[st.ghost["__exc__"].oid]["_location"].oid]["_line"]).z == lift(st.frames[-1].env.get("_i0", 0)).z)
                                                   if st.heap[st.ghost["__exc__"].oid].get("_location") is not None else z3.BoolVal(False))),
-                                                  "every-rejection-carries-the-number-of-the-offending-row-(or-of-the-end-of-the-CID-for-completeness-errors)", props=["C09"])]},
+                                                  "every-rejection-carries-the-number-of-the-offending-row-(the-end-of-the-CID-for-completeness-errors,-the-reader's-location-for-a-file-that-cannot-be-parsed)", props=["C09"])]},
                 loops={0: LoopSpec(invariants=["this._location._line == _i0", "known_upto(_i0)", "iff(this._data_format is None, d_rows == 0)", "len(this._field_names) == f_rows", "d_rows >= 0 and f_rows >= 0"],
                                    havoc={"row": SROW, "row_type": STR, "row_data": SROW, "this._data_format": Opt(DFO), "this._field_names": UFList(STR), "this._location._line": INT, "this._location._cell": INT, "this._location._column": INT},
                                    ghost_havoc={"d_rows": INT, "f_rows": INT, "c_rows": INT})},
